@@ -65,7 +65,10 @@ def render_row(c, row, style):
     vals = [render_value(row[n], t, style.get('value', 0)) for n, t in c['attrs']]
     if style.get('named'):
         order = style.get('column_order') or list(range(len(names)))
-        cols = [names[i] if not style.get('lower') else names[i].lower() for i in order]
+        spell = style.get('col_spelling') or {}
+        cols = [spell.get(names[i], names[i]) if not style.get('lower') else names[i].lower() for i in order]
+        if style.get('kind_spelling'):
+            kind = style['kind_spelling']
         vs = [vals[i] for i in order]
         return 'INSERT INTO %s (%s) VALUES (%s);' % (kind, ', '.join(cols), ', '.join(vs))
     if style.get('multiline'):
